@@ -116,8 +116,8 @@ impl LruPageCache {
     /// Read data from cache or load it from file
     pub fn read(&self, file_id: FileId, offset: u64, length: usize) -> Result<CacheBuffer> {
         // Calculate which pages we need
+        let end_offset = Self::checked_end(offset, length)?;
         let start_page = FileManager::offset_to_page_id(offset);
-        let end_offset = offset + length as u64;
         let end_page = FileManager::offset_to_page_id(end_offset.saturating_sub(1));
         
         let mut result_buffer = CacheBuffer::new();
@@ -156,6 +156,13 @@ impl LruPageCache {
         Ok(result_buffer)
     }
     
+    /// End offset of a request; rejects ranges whose end does not fit in u64.
+    fn checked_end(offset: u64, length: usize) -> Result<u64> {
+        let end = offset.checked_add(length as u64)
+            .ok_or_else(|| ZiporaError::invalid_data("offset + length overflows u64".to_string()))?;
+        Ok(end)
+    }
+
     /// Get a page from cache or load it from file
     fn get_page(&self, file_id: FileId, page_id: PageId) -> Result<Vec<u8>> {
         let cache_key = (file_id, page_id);
@@ -263,8 +270,8 @@ impl LruPageCache {
     /// Prefetch pages for better performance
     pub fn prefetch(&self, file_id: FileId, offset: u64, length: usize) -> Result<()> {
         // Calculate pages to prefetch
+        let end_offset = Self::checked_end(offset, length)?;
         let start_page = FileManager::offset_to_page_id(offset);
-        let end_offset = offset + length as u64;
         let end_page = FileManager::offset_to_page_id(end_offset.saturating_sub(1));
         
         // Prefetch each page (load into cache without returning data)
@@ -309,8 +316,8 @@ impl LruPageCache {
     
     /// Invalidate a range of pages
     pub fn invalidate_range(&self, file_id: FileId, start_offset: u64, length: usize) -> Result<()> {
+        let end_offset = Self::checked_end(start_offset, length)?;
         let start_page = FileManager::offset_to_page_id(start_offset);
-        let end_offset = start_offset + length as u64;
         let end_page = FileManager::offset_to_page_id(end_offset.saturating_sub(1));
         
         for page_id in start_page..=end_page {
